@@ -415,7 +415,10 @@ class _Formatter:
                 and prev is not None
                 and prev.type == NAME
                 and prev.end == tok.start
+                and not self._macro_until_depth
             ):
+                # (a macro call nested in a macro body is part of the outer
+                # body's raw text: the outer call decides where raw ends)
                 self._macro_until_depth = self._paren_depth
             # Macro exit: dropped below the depth we entered at.
             if self._macro_until_depth and self._paren_depth < self._macro_until_depth:
